@@ -772,6 +772,11 @@ var _ = sort.Ints
 // (seeded change C14/m4: the default had become 10 ns).
 type ExpiryCase struct {
 	GapMs int `json:"gap_ms"`
+	// ExpiryMs > 0: explicit expiry; the partial message is injected StartMs after the transport was created (i.e. after the first
+	// sweep), its last segment GapMs later: by then a LATER sweep has forgotten it, the straggler completes nothing (seeded change
+	// C14/m5: the sweep ran only once per connection)
+	ExpiryMs int `json:"expiry_ms,omitempty"`
+	StartMs  int `json:"start_ms,omitempty"`
 }
 
 func runExpiry(c ExpiryCase, k *ev.Case) *ev.Failure {
@@ -781,7 +786,7 @@ func runExpiry(c ExpiryCase, k *ev.Case) *ev.Failure {
 	if err != nil {
 		return ev.Failf("harness", "quic.New: %v", err)
 	}
-	tb, err := tquic.New(tquic.Config{Connection: b})
+	tb, err := tquic.New(tquic.Config{Connection: b, ReadBufferExpiry: time.Duration(c.ExpiryMs) * time.Millisecond})
 	if err != nil {
 		return ev.Failf("harness", "quic.New: %v", err)
 	}
@@ -789,6 +794,7 @@ func runExpiry(c ExpiryCase, k *ev.Case) *ev.Failure {
 	defer tb.Close()
 	ua, _ := ta.AsUnreliable()
 	ub, _ := tb.AsUnreliable()
+	time.Sleep(time.Duration(c.StartMs) * time.Millisecond)
 	msg := body(7, 3*P-5)
 	if err := ua.Write(msg); err != nil {
 		return ev.Failf("harness", "write: %v", err)
@@ -811,6 +817,23 @@ func runExpiry(c ExpiryCase, k *ev.Case) *ev.Failure {
 		b.Inject(d)
 	}
 	k.NonTrivial(ev.JSON(c))
+	if c.ExpiryMs > 0 {
+		// the message expired long before its last segment: it must never be handed up; a marker sent now is what Read returns
+		a.ManualDatagrams = false
+		marker := []byte("marker-after-expired-message")
+		if err := ua.Write(marker); err != nil {
+			return ev.Failf("harness", "marker: %v", err)
+		}
+		select {
+		case m := <-got:
+			if !bytes.Equal(m, marker) {
+				return ev.Failf("C14.3 not-forgotten", "expiry %d ms: a message whose last segment arrived %d ms after the others (several sweeps later) was still handed up (%d bytes)", c.ExpiryMs, c.GapMs, len(m))
+			}
+			return nil
+		case <-time.After(3 * time.Second):
+			return ev.Failf("C14.1 not-reassembled", "the marker message sent after the expired one never arrived")
+		}
+	}
 	select {
 	case m := <-got:
 		if !bytes.Equal(m, msg) {
@@ -829,4 +852,5 @@ func TestDefaultExpiry(t *testing.T) {
 		t.Skip("shard 0")
 	}
 	subExpiry.One(t, ExpiryCase{GapMs: 1300})
+	subExpiry.One(t, ExpiryCase{GapMs: 1300, ExpiryMs: 10, StartMs: 1200})
 }
